@@ -209,6 +209,39 @@ def run(tier):
                         if a.get('SPACING') is not None:
                             chk.fail('index:spacing-with-nan', case, f'SPACING written as {a["SPACING"]["vals"]} although the '
                                                                     f'index differences of the rows written are not uniform')
+        # index values that are not short binary fractions (0.1 steps, measured depths): INDEX-MIN / INDEX-MAX are the
+        # smallest / largest value of the rows written, exactly (a float32 value widened, not re-rounded through text)
+        for _ in range(40 if tier == 'quick' else 400):
+            dtype = R.choice(['float32', 'float32', 'float64'])
+            n = R.choice([1, 2, 3, 5, 8])
+            start = R.choice([0.1, 1000.7, 1022.2, -3.3, 1e-3, 2499.9, R.uniform(-5000, 5000)])
+            step = R.choice([0.1, 0.1524, -0.1, 0.3048, R.uniform(0.01, 2.0)])
+            arr = np.array([start + i * step for i in range(n)], dtype=dtype)
+            if R.random() < 0.3:
+                arr = arr[R.sample(range(n), n)]
+            df = DLISFile(set_identifier='IDX', max_record_length=8192)
+            lf = df.add_logical_file()
+            lf.add_origin('O', file_set_number=1, creation_time='2020/01/01 00:00:00')
+            c0 = lf.add_channel('DEPTH', data=arr, units='m')
+            c1 = lf.add_channel('X', data=np.arange(n, dtype=np.float32))
+            lf.add_frame('FR', channels=[c0, c1], index_type='BOREHOLE-DEPTH')
+            lo_i = R.choice([None, None, 1]) if n >= 3 else None
+            kw = {} if lo_i is None else {'from_idx': lo_i}
+            st, err = call(df.write, path, output_chunk_size=2**20, **kw)
+            written = arr if lo_i is None else arr[lo_i:]
+            case = {'dtype': dtype, 'index_values': [repr(float(v)) for v in arr], 'from_idx': lo_i}
+            chk.case('non-dyadic', nontrivial_key=('nd', dtype, tuple(float(v) for v in arr), lo_i), sample={**case, 'status': st})
+            if st != 'ok':
+                chk.fail('index:valid-index-refused', case, f'the write raises {err}')
+                continue
+            if not bres.ok:
+                continue
+            a = frame_attrs(model, open(path, 'rb').read())
+            for lab, want in (('INDEX-MIN', float(written.min())), ('INDEX-MAX', float(written.max()))):
+                got = a and a.get(lab)
+                if got is None or got['vals'] != [ftok(want)]:
+                    chk.fail('index:bounds-not-exact', case, f'{lab}: the rows written have {want!r} (as {dtype}), the file has '
+                                                             f'{got and got["vals"]}')
         # user-supplied values are written unchanged
         for _ in range(80 if tier == 'quick' else 600):
             # index values never start, end or step at zero: a supplied zero differs from every derived value
